@@ -294,3 +294,8 @@ Definition is_minimal_sol (A : mat) (x : list Z) : bool :=
 (* well-formedness of the input, as a boolean (the driver only builds such matrices) *)
 Definition mat_wfb (A : mat) : bool :=
   Nat.eqb (length (m_rows A)) (m_p A) && forallb (fun r => Nat.eqb (length r) (m_q A)) (m_rows A).
+
+(* guard: `basis` is empty on entry (the function appends to it without clearing; the
+   property theorems are stated under this guard, see C46_lde_from_refuted) *)
+Definition guard_basis_empty (basis0 : list (list Z)) : bool :=
+  match basis0 with [] => true | _ => false end.
